@@ -229,7 +229,7 @@ func c09Shapes(c *Ctx) {
 				ageIdx[i] = v % len(c09AgeMenu)
 				v /= len(c09AgeMenu)
 			}
-			for _, fit := range []int{0, 1, 2, 3, 4, 5, 6, 7, 8, 9, 11} { // incl. an all-negative and a mixed-sign landscape
+			for _, fit := range []int{0, 1, 2, 3, 4, 5, 6, 7, 8, 9, 11, 12} { // incl. an all-negative, a mixed-sign and a tiny-scale landscape
 				stolenHere := stolen
 				if c.Quick() && k == 4 && sizes[0]+sizes[1]+sizes[2]+sizes[3] == 12 {
 					stolenHere = []int{10}
